@@ -458,6 +458,15 @@ func (bg *Reader) Seek(off Offset) error {
 
 	if off.File != bg.current.Base() || !bg.current.hasData() {
 		ok := bg.cacheSwap(off.File)
+		if ok && bg.dec == nil {
+			// The block came from the cache: point the read-ahead
+			// worker at the block that follows it.
+			select {
+			case <-bg.control:
+			default:
+			}
+			bg.control <- bg.current.NextBase()
+		}
 		if !ok {
 			var dec *decompressor
 			if bg.dec != nil {
